@@ -77,7 +77,7 @@ def nasOf (sl us dn mp up : String) : Option Nas := do
 def showL {α} [ToString α] (l : List α) : String := " ".intercalate (l.map toString)
 def showB (l : List Bool) : String := showL (l.map fun b => if b then 1 else 0)
 def errS : Err → String
-  | .value => "value-error" | .index => "index-error" | .key => "key-error"
+  | .value => "value-error" | .index => "index-error" | .key => "key-error" | .type => "type-error"
 def flat2 (l : List (Nat × Nat)) : List Nat := l.flatMap fun p => [p.1, p.2]
 
 /-- `mkusetmask(str)`: split on '+', every piece must be a key. -/
